@@ -32,7 +32,7 @@ FORBIDDEN = re.compile(r'\b(Admitted|admit|Axiom|Axioms|Parameter|Parameters|Con
                        r'|Unset\s+Guard|bypass_check|Admit\s+Obligations|-type-in-type|impredicative-set|Unset\s+Positivity|Unset\s+Universe')
 
 QFLAGS = []
-for d in ('Base', 'Model', 'Proofs', 'Properties', 'Gen'):
+for d in ('Base', 'Spec', 'Model', 'Proofs', 'Properties', 'Gen'):
     QFLAGS += ['-Q', os.path.join(THEORIES, d), 'Verif']
 
 
@@ -139,7 +139,7 @@ def forbidden_scan():
 
 def coq_files():
     out = []
-    for d in ('Base', 'Model', 'Proofs', 'Properties', 'Gen'):
+    for d in ('Base', 'Spec', 'Model', 'Proofs', 'Properties', 'Gen'):
         dd = os.path.join(THEORIES, d)
         if os.path.isdir(dd):
             for f in sorted(os.listdir(dd)):
@@ -190,7 +190,7 @@ def check_property_file(pid, timeout=600):
     names = [n for d in deps for n in d.split()]
     tlog = ''
     for n in names:
-        for d in ('Base', 'Model', 'Proofs', 'Gen'):
+        for d in ('Base', 'Spec', 'Model', 'Proofs', 'Gen'):
             if os.path.exists(os.path.join(THEORIES, d, n + '.v')):
                 rc, out = make_target('theories/%s/%s.vo' % (d, n), timeout)
                 tlog += out
@@ -228,7 +228,7 @@ def build_driver(pid, timeout=600):
     h = hashlib.sha256()
     srcs = [ext, os.path.join(VERIF, 'ocaml', 'driver.ml')]
     # the transitive closure is approximated by: all Base/Model/Gen files (Models never import Proofs)
-    for d in ('Base', 'Model', 'Gen'):
+    for d in ('Base', 'Spec', 'Model', 'Gen'):
         dd = os.path.join(THEORIES, d)
         if os.path.isdir(dd):
             srcs += [os.path.join(dd, f) for f in sorted(os.listdir(dd)) if f.endswith('.v')]
@@ -241,7 +241,7 @@ def build_driver(pid, timeout=600):
     if os.path.exists(exe) and os.path.exists(stamp) and open(stamp).read() == digest:
         return exe
     for n in names:
-        for d in ('Base', 'Model', 'Gen'):
+        for d in ('Base', 'Spec', 'Model', 'Gen'):
             if os.path.exists(os.path.join(THEORIES, d, n + '.v')):
                 rc, out = make_target('theories/%s/%s.vo' % (d, n), timeout)
                 if rc != 0:
@@ -641,7 +641,7 @@ def main(argv):
         coverage=dict(
             obligations=n_theorems + gen_obl,
             discharged=(n_theorems + gen_obl) if (proof['ok'] and not any(b.startswith('translator') for b in broken)) else 0,
-            checker_cmd='coqc %s theories/Properties/%s.v (after make of its dependencies; full .vo build)' % (' '.join('-Q theories/%s Verif' % d for d in ('Base', 'Model', 'Proofs', 'Properties', 'Gen')), pid),
+            checker_cmd='coqc %s theories/Properties/%s.v (after make of its dependencies; full .vo build)' % (' '.join('-Q theories/%s Verif' % d for d in ('Base', 'Spec', 'Model', 'Proofs', 'Properties', 'Gen')), pid),
             trusted_base=trusted,
             theorems=proof['theorems'],
             print_assumptions=proof['assumptions'],
@@ -706,7 +706,7 @@ def shrink_case(prop, modname, exe, case, verdict, known, budget=150):
             steps += len(cands)
             for c, io, mo in zip(cands, ios, mos):
                 v = prop.judge(c, io, mo)
-                if v and v.get('violation') and match_known(known, v) is None:
+                if v and v.get('violation') and v.get('key') == verdict.get('key') and match_known(known, v) is None:
                     cur, curv, improved = c, v, True
                     break
     io = run_impl_cases(modname, [cur], procs=1)[0]
